@@ -5,20 +5,25 @@ From NCG Require Export Run.Rev.
 From NCG Require Import Proofs.CrlCheck.
 Definition case := rcase.
 
+(* the clauses, as a function of the world, the certificate's distribution points and the leaf's result *)
+Definition c05_spec (w : world) (st : Z) (leaf : cert) (r : rres) : Z :=
+  let clr := clear_b (w_fetch w) (w_now w) st (c_serial leaf) (c_freshest leaf) in
+  let pc := point_check (w_fetch w) (w_now w) st (c_serial leaf) (c_freshest leaf) in
+  let first := find (fun u => negb (clr u)) (c_crl leaf) in
+  (* OK although some distribution point did not deliver an authentic current clear CRL *)
+  if rres_eqb r ROK && negb (forallb clr (c_crl leaf)) then 1
+  (* a point fails (first non-clear point does not list the certificate) but the result is not Unknown *)
+  else if match first with Some u => match pc u with None => true | _ => false end | None => false end && negb (rres_eqb r RUnknown) then 2
+  (* the first non-clear point lists the certificate but the result is not Revoked *)
+  else if match first with Some u => match pc u with Some ERevoked => true | _ => false end | None => false end && negb (rres_eqb r RRevoked) then 3
+  else 0.
+
 Definition check_case (c : rcase) : verdict :=
   if r_panicked c then (r_id c, 2, 9) else
   match r_chain c, leaf_result (r_impl c) with
   | leaf :: _, Some r =>
-      let w := case_world c in
-      let clr := clear_b (w_fetch w) (w_now w) (r_st c) (c_serial leaf) (c_freshest leaf) in
-      let pc := point_check (w_fetch w) (w_now w) (r_st c) (c_serial leaf) (c_freshest leaf) in
-      let first := find (fun u => negb (clr u)) (c_crl leaf) in
-      (* OK although some distribution point did not deliver an authentic current clear CRL *)
-      if rres_eqb r ROK && negb (forallb clr (c_crl leaf)) then (r_id c, 2, 1)
-      (* a point fails (first non-clear point does not list the certificate) but the result is not Unknown *)
-      else if match first with Some u => match pc u with None => true | _ => false end | None => false end && negb (rres_eqb r RUnknown) then (r_id c, 2, 2)
-      (* the first non-clear point lists the certificate but the result is not Revoked *)
-      else if match first with Some u => match pc u with Some ERevoked => true | _ => false end | None => false end && negb (rres_eqb r RRevoked) then (r_id c, 2, 3)
+      let k := c05_spec (case_world c) (r_st c) leaf r in
+      if negb (k =? 0) then (r_id c, 2, k)
       else if agrees c then (r_id c, 0, 0) else (r_id c, 1, 0)
   | _, _ => if agrees c then (r_id c, 0, 0) else (r_id c, 1, 0)
   end.
